@@ -201,6 +201,7 @@ def check_log(spec, log):
     ended = False
     last_poll = -1
     stop_of_paused = set()
+    warm, copied = {}, set()   # trial -> source of its warm start; trials whose checkpoint copy was made
     in_loop_end = False   # callbacks' on_loop_end phase: the only place where callback deletions belong
     for k, e in enumerate(log):
         tag = e[0]
@@ -224,6 +225,7 @@ def check_log(spec, log):
             if e[2] is not None:
                 stats["clones"] += 1
                 j = e[2]
+                warm[e[1]] = j
                 if j in never_again:
                     viol.append(("trial %d listed as never-resumable was used as clone source" % j,
                                  dict(scheduler=kind.upper(), event="clone_from_removable_trial")))
@@ -234,7 +236,13 @@ def check_log(spec, log):
                     viol.append(("start_trial(checkpoint_trial_id=%d) for new trial %d, but delete_checkpoint(%d) was "
                                  "called before (by %s, log index %d)" % (j, e[1], j, ctx, kd),
                                  dict(scheduler=kind.upper(), event=ev, delete_context=ctx)))
+        elif tag == "schedule":
+            if e[1] in warm and e[1] not in copied:
+                viol.append(("the job of trial %d, started with checkpoint_trial_id=%d, is scheduled BEFORE copy_checkpoint(%d, %d): "
+                             "it is launched while its checkpoint does not exist yet" % (e[1], warm[e[1]], warm[e[1]], e[1]),
+                             dict(scheduler=kind.upper(), event="job_scheduled_before_checkpoint_copied")))
         elif tag == "copy":
+            copied.add(e[2])
             if e[3] != (e[1] not in deleted):
                 viol.append(("backend and checker disagree on checkpoint %d" % e[1],
                              dict(scheduler=kind.upper(), event="checker_inconsistent")))
@@ -374,6 +382,8 @@ def ev_term(e, spec):
         return "EStart %s %s" % (zl(e[1]), "None" if e[2] is None else "(Some %s)" % zl(e[2]))
     if tag == "resume":
         return "EResume %s" % zl(e[1])
+    if tag == "schedule":
+        return "ESchedule %s" % zl(e[1])
     if tag == "resume_rejected":
         return "EError"
     if tag == "stop_all":
@@ -539,10 +549,30 @@ def run(ctx, replay=None):
     ctx.notes.append("PBT._suggest behaviour on the F-C20-1 scenario: %s" % (
         "source re-drawn (model pbt_sched)" if PBT_FIXED["value"] else "stopped source used (model pbt_sched_unfixed)"))
     if replay is not None:
-        specs = [replay["spec"]]
+        specs = [replay["spec"]] if "spec" in replay else []
     else:
         n = ctx.n(420, 6000)
         specs = corpus_specs() + [gen_spec(rng, kind=KINDS[i % len(KINDS)]) for i in range(n)]
+    # ---- stream on the real LocalBackend (checkpoint directories on disk) ---------------------
+    if replay is None or replay.get("stream") == "localfs":
+        import ckpt_localfs
+        for name, events, crash, fviols in ckpt_localfs.run_streams():
+            ctx.count(("localfs", name), nontrivial=sum(1 for e in events if e[0] == "copy") >= 2)
+            ctx.h("localfs", name + "_copies", sum(1 for e in events if e[0] == "copy"))
+            if crash:
+                ctx.h("localfs", name + "_exception:" + crash[:60])
+            seen = set()
+            for what, sig in fviols:
+                if tuple(sorted(sig.items())) not in seen:
+                    seen.add(tuple(sorted(sig.items())))
+                    ctx.violation("property", what + " [real LocalBackend, stream '%s', delete_checkpoints=True]" % name,
+                                  case=dict(stream="localfs", part=name), signature=sig)
+            if crash and not fviols:
+                ctx.violation("correspondence", "real LocalBackend stream '%s' raised %s" % (name, crash),
+                              case=dict(stream="localfs", part=name), failing_input=False,
+                              broken="file-system stream (harness/ckpt_localfs.py)")
+        if replay is not None:
+            return
     layers = {"oracle": ([], []), "promo": ([], []), "sync": ([], []), "pbt": ([], [])}
     for spec in specs:
         log, extra = run_case(spec)
